@@ -262,8 +262,17 @@ def caller_roles(sm, pm):
     # y0
     role = "y0 is the prediction on the unmodified X with its own args"
     y0 = [n for n in sm.node.body if isinstance(n, ast.Assign) and isinstance(n.targets[0], ast.Name) and n.targets[0].id == "y0"]
+    y0_all = [n for n in walk_no_nested(sm.node) if isinstance(n, ast.Assign) and any(isinstance(t, ast.Name) and t.id == "y0" for t in n.targets)]
+    any_eval_of_X = [n for n in walk_no_nested(sm.node) if isinstance(n, ast.Call) and (dotted(n.func) == "predict" or dotted(n.func) == "model") and
+                     any(isinstance(a, ast.Name) and a.id == "X" for a in n.args)]
     if len(y0) != 1 or not (isinstance(y0[0].value, ast.Call) and dotted(y0[0].value.func) == "predict"):
-        out.append(unrecognised("ROLE", sm, role, "y0 = predict(...) not found"))
+        derived = [n for n in y0_all if not any(isinstance(x, ast.Call) and dotted(x.func) in ("predict", "model") for x in ast.walk(n.value))
+                   and any(isinstance(x, ast.Name) and x.id in ("y_hat", "y_hats", "y_hat_") for x in ast.walk(n.value))]
+        if derived and not any_eval_of_X:
+            out.append(named("ROLE", sm, role, "`%s`: y0 is read out of the mutant predictions and the model is never evaluated on X itself; a mutant "
+                             "equals the original only where the edited column is one-hot (an all-zero N column has no such mutant)" % unparse(derived[0])[:70], derived[0]))
+        else:
+            out.append(unrecognised("ROLE", sm, role, "y0 = predict(...) not found"))
     else:
         c0 = y0[0].value
         a = [unparse(x) for x in c0.args]
